@@ -362,6 +362,13 @@ fn long_lived_case(c: &Case, lo: &mut LongLived, st: &mut Stats) -> Result<(), F
             _ => c.base.chars().take(2).collect(),
         };
         if !key.is_empty() && key.chars().all(|ch| ch.is_ascii_alphanumeric()) {
+            // a user may write a key with punctuation around it ("dr."): whatever the engine makes of such a key, it must
+            // make the same of it when the list is re-read by update-engine as when it is read at creation
+            let key = match which % 7 {
+                5 => format!("{key}."),
+                6 => format!("({key}"),
+                _ => key,
+            };
             lo.warm.finish().map_err(pf)?;
             lo.clock += 100;
             let write = |doc: serde_json::Value, secs: u64| {
